@@ -24,7 +24,7 @@ from ..astutil import (
 from ..cfg import CFG
 from ..core import AnalysisError, Mutant
 from ..layout import INF, Unknown, float_field_width, int_digits, parse_spec
-from ..exprnorm import has_code
+from ..exprnorm import has_code, same_expr
 
 EXPLANATION = (
     "Symbolic (min,max) width of every piece PDBFile.set_structure concatenates, bounded by the "
@@ -538,6 +538,56 @@ def altloc_marker_rules(ctx):
                "otherwise every atom of a file written by this package is dropped when it is read with that policy", f.func(q).lineno)
 
 
+BOX = "structure/box.py"
+
+
+def unitcell_noise_rule(ctx, rule):
+    """CRYST1 gives the angles to 0.01 degree: what vectors_from_unitcell treats as numerical noise (and sets to 0) must stay below what
+    such an angle contributes - a cut-off of at most 1e-4 of the summed lengths"""
+    f = ctx.src(BOX).func("vectors_from_unitcell")
+    tols = [st.value for st in ast.walk(f) if isinstance(st, ast.Assign) and isinstance(st.targets[0], ast.Name) and st.targets[0].id == "tol"]
+    fac = None
+    if len(tols) == 1 and isinstance(tols[0], ast.BinOp) and isinstance(tols[0].op, ast.Mult):
+        for side, other in ((tols[0].left, tols[0].right), (tols[0].right, tols[0].left)):
+            if isinstance(side, ast.Constant) and isinstance(side.value, (int, float)) and same_expr(other, "len_a + len_b + len_c"):
+                fac = side.value
+    ctx.ob(rule, BOX, "vectors_from_unitcell", f"box[np.abs(box) < {fac} * (len_a + len_b + len_c)] = 0",
+           fac is not None and 0 <= fac <= 1e-4 and has_code(f, "box[np.abs(box) < tol] = 0"),
+           "a cell angle that differs from 90 degrees by a tenth of a degree contributes about 1.7e-3 of a cell length: a larger cut-off reads "
+           "such a cell back as exactly orthogonal", f.lineno)
+
+
+def digits_helper_rule(ctx, rule):
+    """the helper behind every column guard of the fixed-width writers (PDB, MOL / SDF): it measures the integer part of the smallest
+    and of the largest of ALL values it is handed"""
+    # number_of_integer_digits summary
+    util = ctx.src(UTIL).func("number_of_integer_digits")
+    # result = max over {len(str(min(int values))), len(str(max(int values)))} (a constant 0 among the candidates is harmless)
+    from ..exprnorm import summarize as _summ, canon as _canon, spec as _spec
+    usum = _summ(util)
+
+    def _max_terms(e):
+        if isinstance(e, ast.Call) and call_name(e) == "max" and not e.keywords:
+            out = []
+            for a in e.args:
+                out.extend(_max_terms(a))
+            return out
+        return [e]
+
+    ures = usum.result
+    if isinstance(ures, ast.IfExp) and isinstance(ures.body, ast.Constant) and ures.body.value == 0:
+        ures = ures.orelse      # empty input -> 0 digits
+    terms = [] if ures is None else [t for t in _max_terms(ures) if not (isinstance(t, ast.Constant) and t.value == 0)]
+    vparam = param_names(util)[0]
+    want = {repr(_spec(f"len(str(np.{m}({vparam}.astype(int, copy=False))))")) for m in ("min", "max")}
+    summary_ok = {repr(_canon(t)) for t in terms} == want
+    # the column guards (and the refusal of NaN / infinity in B-factor, occupancy and the box, which have no test of their own:
+    # the cast of NaN to int gives a number with 19 digits) rest on this helper measuring ALL values as they were passed
+    ctx.ob(rule, UTIL, "number_of_integer_digits", "max(len(str(min(int(values)))), len(str(max(int(values)))))", summary_ok,
+           "the helper must measure the integer part of the smallest and the largest of all values passed (no value filtered "
+           "out or altered before): the code computes " + (ast.unparse(usum.result)[:200] if usum.result is not None else "nothing"), util.lineno)
+
+
 def run(ctx):
     altloc_marker_rules(ctx)
     src = ctx.src(FILE)
@@ -568,32 +618,8 @@ def run(ctx):
     dtypes = {"coord": "float32" if f32 else "float64"}
     ctx.ob("R3.coord-dtype", ATOMS, "_AtomArrayBase.__setattr__", "coord stored as float32", True,
            nontrivial=False, detail={"float32": f32})
-    # number_of_integer_digits summary
-    util = ctx.src(UTIL).func("number_of_integer_digits")
-    # result = max over {len(str(min(int values))), len(str(max(int values)))} (a constant 0 among the candidates is harmless)
-    from ..exprnorm import summarize as _summ, canon as _canon, spec as _spec
-    usum = _summ(util)
-
-    def _max_terms(e):
-        if isinstance(e, ast.Call) and call_name(e) == "max" and not e.keywords:
-            out = []
-            for a in e.args:
-                out.extend(_max_terms(a))
-            return out
-        return [e]
-
-    ures = usum.result
-    if isinstance(ures, ast.IfExp) and isinstance(ures.body, ast.Constant) and ures.body.value == 0:
-        ures = ures.orelse      # empty input -> 0 digits
-    terms = [] if ures is None else [t for t in _max_terms(ures) if not (isinstance(t, ast.Constant) and t.value == 0)]
-    vparam = param_names(util)[0]
-    want = {repr(_spec(f"len(str(np.{m}({vparam}.astype(int, copy=False))))")) for m in ("min", "max")}
-    summary_ok = {repr(_canon(t)) for t in terms} == want
-    # the column guards (and the refusal of NaN / infinity in B-factor, occupancy and the box, which have no test of their own:
-    # the cast of NaN to int gives a number with 19 digits) rest on this helper measuring ALL values as they were passed
-    ctx.ob("R3.digits-helper", UTIL, "number_of_integer_digits", "max(len(str(min(int(values)))), len(str(max(int(values)))))", summary_ok,
-           "the helper must measure the integer part of the smallest and the largest of all values passed (no value filtered "
-           "out or altered before): the code computes " + (ast.unparse(usum.result)[:200] if usum.result is not None else "nothing"), util.lineno)
+    digits_helper_rule(ctx, "R3.digits-helper")
+    unitcell_noise_rule(ctx, "R2.unitcell-noise-cutoff")
     W = Writer(ctx, setf, guards, consts, aparam, dtypes)
 
     # ---------------- ATOM / HETATM record --------------------------------
